@@ -68,6 +68,8 @@ def run(ctx):
     import c07
     c07.check_memo(ctx_alias(ctx, "R01.4"))
     c07.check_use_site(ctx_alias(ctx, "R01.4"))
+    import engine
+    c07.run(engine.AliasCtx(ctx, {"R07.2": "R01.4"}))
     import c06
     c06.check_edge_selection(ctx_alias(ctx, "R01.7"), [f for f in ctx.db.fns.values() if f.crate == "wac_graph"])
     validator_features(ctx)
